@@ -1,4 +1,5 @@
 import AsyncsshModel.Model.Lifecycle
+import AsyncsshModel.Gen.C09
 /-
   Waiters that sit on top of a channel's session callbacks:
     * `SSHStreamSession` (asyncssh/stream.py:373-686): one read waiter per data type, a set of drain waiters,
@@ -179,7 +180,8 @@ inductive ReaderEnd where
 
 /-- `SFTPClientHandler._cleanup(exc)` (sftp.py:2634) -/
 def sftpCleanup (s : Sftp) (r : SRes) : Sftp :=
-  { s with results := s.results ++ s.requests.map (fun i => (i, r)), requests := [], writer := false }
+  { s with results := s.results ++ s.requests.map (fun i => (i, r)), requests := [], writer := false,
+           readerAlive := false }      -- `_reader = None`: the `while self._reader` loop of `recv_packets` ends
 
 /-- `_make_request` → `_send_request` → `send_packet` -/
 def sftpRequest (s : Sftp) : Sftp :=
@@ -194,10 +196,14 @@ def sftpReply (s : Sftp) (i : Nat) : Sftp :=
   else if i ∈ s.requests then { s with requests := s.requests.erase i, results := s.results ++ [(i, .reply)] }
   else sftpCleanup s .badMessage
 
-/-- is the exception class caught by `except (OSError, Error)` in `recv_packets` (sftp.py:2594)? -/
-def caughtBySftp : Exc → Bool
-  | .connLost | .proto | .byApp | .reset => true
-  | _ => false
+/-- is the exception class caught by one of the `except` clauses of `recv_packets` (sftp.py; the clause list is
+    regenerated from the source into `Gen/C09.lean`)?  `OSError` and `asyncssh.Error` subclasses are; anything
+    else only if a catch-all clause exists. -/
+def caughtBySftp (e : Exc) : Bool :=
+  Gen.C09.recvPacketsCatchesAll ||
+  (match e with
+   | .connLost | .proto | .byApp | .reset => true
+   | _ => false)
 
 /-- classify the outcome of `readexactly` in `recv_packet` once the channel is gone -/
 def readerEndOf (r : Res) : Option ReaderEnd :=
@@ -216,6 +222,7 @@ def sftpReaderEnd (s : Sftp) : ReaderEnd → Sftp
     `recv_packets` task is blocked in `readexactly(4)` on stdout; its outcome decides the request table -/
 def sftpOnChannelLost (st : StreamSess) (s : Sftp) (e : Exc) : StreamSess × Sftp :=
   let st1 := onLost st e
+  if s.readerAlive = false then (st1, s) else
   match st1.reads.getLast? with
   | some r => (match readerEndOf r with
                | some k => (st1, sftpReaderEnd s k)
